@@ -424,7 +424,7 @@ def rule_aff_clip(ctx: Ctx) -> None:
 def rule_null_kl(ctx: Ctx) -> None:
     import ast as _ast
     p = ctx.prog
-    ctx.rule('NULL-KL', 'kl_clip=None (documented: no clipping) is accepted by the constructor and leads to scale None, i.e. no scaling', floor=3)
+    ctx.rule('NULL-KL', 'kl_clip=None (documented: no clipping) is accepted by the constructor and leads to scale None, i.e. no scaling (OWN-WRITEBACK: update_grad scales exactly when a scale is given)', floor=2)
     init = p.get_func(f'{BP}.__init__')
     cmps = [n for n in p.nodes(init) if isinstance(n, _ast.Compare) and any(isinstance(x, _ast.Name) and x.id == 'kl_clip' for x in _ast.walk(n))
             and any(isinstance(o, (_ast.Lt, _ast.LtE, _ast.Gt, _ast.GtE)) for o in n.ops)]
@@ -438,7 +438,3 @@ def rule_null_kl(ctx: Ctx) -> None:
     ok = len(sc) == 1 and norm(sc[0].value).replace(' ', '') in ('Noneifself.kl_clipisNoneelseself._compute_grad_scale()', 'self._compute_grad_scale()ifself.kl_clipisnotNoneelseNone')
     ctx.check(ok, 'NULL-KL', st, 'scale = None if kl_clip is None else _compute_grad_scale()', 'scale',
               f'step() computes the scale as {[norm(x.value) for x in sc]}; specified: None (no scaling) exactly when kl_clip is None', sc[0] if sc else st.node)
-    ug = p.get_func('layers.base.KFACBaseLayer.update_grad')
-    muls = [n for n in p.nodes(ug) if isinstance(n, _ast.Assign) and 'scale' in norm(n.value) and '*' in norm(n.value)]
-    okm = len(muls) == 1 and [(norm(a), pol) for g in flow.enclosing_guards(p, ug, muls[0]) for a, pol in conjuncts(g.test, g.polarity)] in ([('scale is None', False)], [('scale is not None', True)])
-    ctx.check(okm, 'NULL-KL', ug, 'update_grad scales exactly when a scale is given', 'update_grad scale', 'update_grad does not multiply by the scale exactly when scale is not None', ug.node)
